@@ -26,7 +26,9 @@ def _run(seed):
     try:
         # every fourth run has a fourth session (timed windows: slow destination, see concdriver copy_late)
         sess = ("A", "B", "C", "D") if seed % 4 == 3 else ("A", "B", "C")
-        wins, stats = concdriver.execute(seed, nwin=6, sessions=sess, p_fifo=0.5 if seed % 2 else 0.75)
+        # every fifth run has a POP3 session that QUITs (removing what it marked) inside the windows
+        wins, stats = concdriver.execute(seed, nwin=6, sessions=sess, p_fifo=0.5 if seed % 2 else 0.75,
+                                         pop3=(seed % 5 == 2))
         return seed, wins, stats, None
     except BaseException:
         import traceback
